@@ -301,9 +301,213 @@ def gen_base(rnd, small: bool = False) -> Dict[str, Any]:
     doc = {k: doc[k] for k in order}
     if r.random() < 0.3:
         r.shuffle(doc["components"])           # declaration order is not dependency order
-    return {"doc": doc, "files": data_files, "replicated": replicated,
+    base = {"doc": doc, "files": data_files, "replicated": replicated,
             "ids": sorted(cid(c) for c in comps), "var_layers": {k: v for k, v in var_layer.items()},
-            "var_uses": {k: sorted(set(v)) for k, v in uses.items()}, "arrays": arrays}
+            "var_uses": {k: sorted(set(v)) for k, v in uses.items()}, "arrays": arrays,
+            "platform": None, "spelled": []}
+    # the literal twin: same document with every reference spelled out; ground truth for edges / targets
+    base["lit"] = copy.deepcopy(doc)
+    if r.random() < 0.75:
+        respell(r, base)
+    return base
+
+
+# --------------------------------------------------------------------------- references spelled through variables
+
+PLATFORMS = ["plat-b", "hermes", "p2"]
+GHOST_STAGE = 7
+
+
+def spell(r, stg, name, f, method, tag, allow_method=True):
+    """One way of writing the reference  [stage<stg>.]<name>[<f>]:<method>  with variables.
+    -> (form, text, [(variable, value)]); the first variable is the one that decides the producer."""
+    stg = int(stg) if stg is not None else None
+    forms = ["producer", "producer", "name"]
+    if stg is not None:
+        forms += ["stage-number", "stage-prefix", "two"]
+    if f:
+        forms.append("producer+file")
+    form = "method" if (allow_method and r.random() < 0.12) else r.choice(forms)
+    prefix = ("stage%d." % stg) if stg is not None else ""
+    who = prefix + name
+    f = f or ""
+    v = tag
+    V = "%(" + v + ")s"
+    if form == "producer":
+        return form, V + f + ":" + method, [(v, who)]
+    if form == "name":
+        return form, prefix + V + f + ":" + method, [(v, name)]
+    if form == "stage-number":
+        return form, "stage" + V + "." + name + f + ":" + method, [(v, stg if r.random() < 0.6 else str(stg))]
+    if form == "stage-prefix":
+        return form, V + "." + name + f + ":" + method, [(v, "stage%d" % stg)]
+    if form == "two":
+        v2 = tag + "n"
+        return form, "stage" + V + ".%(" + v2 + ")s" + f + ":" + method, [(v2, name), (v, stg)]
+    if form == "producer+file":
+        return form, V + ":" + method, [(v, who + f)]
+    return "method", who + f + ":" + V, [(v, method)]
+
+
+def ghost_value(form, stg, name, f):
+    """value of the deciding variable that makes the reference point to a producer that exists nowhere"""
+    prefix = ("stage%d." % int(stg)) if stg is not None else ""
+    if form == "producer":
+        return prefix + GHOST
+    if form in ("name", "two"):
+        return GHOST
+    if form == "stage-number":
+        return GHOST_STAGE
+    if form == "stage-prefix":
+        return "stage%d" % GHOST_STAGE
+    if form == "producer+file":
+        return prefix + GHOST + (f or "")
+    return None
+
+
+def define_var(d, name, value, layer, ci):
+    """define a variable in one layer of document d (ci: index of the component for the component layer)"""
+    kind = layer[0]
+    if kind == "global":
+        d.setdefault("variables", {}).setdefault("default", {}).setdefault("global", {})[name] = value
+    elif kind == "stage":
+        d.setdefault("variables", {}).setdefault("default", {}).setdefault("stages", {}).setdefault(layer[1], {})[name] = value
+    elif kind == "component":
+        d["components"][ci].setdefault("variables", {})[name] = value
+    elif kind == "platform-global":
+        d.setdefault("variables", {}).setdefault(layer[1], {}).setdefault("global", {})[name] = value
+    elif kind == "platform-stage":
+        d.setdefault("variables", {}).setdefault(layer[1], {}).setdefault("stages", {}).setdefault(layer[2], {})[name] = value
+    else:
+        raise ValueError(layer)
+
+
+def undefine_var(d, name, layer) -> bool:
+    kind = layer[0]
+    try:
+        if kind == "global":
+            del d["variables"]["default"]["global"][name]
+        elif kind == "stage":
+            del d["variables"]["default"]["stages"][layer[1]][name]
+        elif kind == "platform-global":
+            del d["variables"][layer[1]]["global"][name]
+        elif kind == "platform-stage":
+            del d["variables"][layer[1]]["stages"][layer[2]][name]
+        else:
+            done = False
+            for cc in d["components"]:          # components may have been shuffled: find by content
+                if name in cc.get("variables", {}):
+                    del cc["variables"][name]
+                    done = True
+            return done
+    except KeyError:
+        return False
+    return True
+
+
+def replace_token(text: str, old: str, new: str) -> str:
+    return " ".join(new if t == old else t for t in text.split(" "))
+
+
+def replicated_producers(lit) -> set:
+    desc = descendants(lit)
+    out = set()
+    for c in lit["components"]:
+        if c.get("workflowAttributes", {}).get("replicate") is not None:
+            out.add(cid(c))
+            out |= desc[cid(c)]
+    return out
+
+
+def respell(r, base) -> None:
+    """Rewrite some component references of base['doc'] so that they are spelled through variables
+    (producer, producer name, stage number, stage prefix, producer and file, method held in a global /
+    stage / component / platform variable or a chain).  base['lit'] keeps the spelled-out twin.
+    A reference whose producer replicates keeps its literal spelling: replication does not follow
+    references spelled with variables (the loader rejects such a document as a dangling reference)."""
+    doc, lit = base["doc"], base["lit"]
+    banned = replicated_producers(lit)
+    sites = []
+    for i, c in enumerate(lit["components"]):
+        for k, ref in enumerate(c.get("references", [])):
+            t = ref_target(ref, c.get("stage", 0))
+            if t and ("stage%d.%s" % t) not in banned:
+                sites.append((i, k))
+    if not sites:
+        return
+    platform = r.choice(PLATFORMS) if r.random() < 0.35 else None
+    chosen = [s for s in sites if r.random() < 0.75] or [r.choice(sites)]
+    styles = ["prod_%d", "src-%d", "P%d", "ref%d_"]
+    for n, (i, k) in enumerate(chosen):
+        c = doc["components"][i]
+        st = c.get("stage", 0)
+        ref = c["references"][k]
+        stg, name, f, method = _REF.match(ref).groups()
+        if stg is None and r.random() < 0.3:
+            stg = str(st)                       # a relative reference may as well be held in absolute form
+        form, text, vs = spell(r, stg, name, f, method, r.choice(styles) % n)
+        layers = ["global", "stage", "component", "chain"]
+        if platform:
+            layers += ["platform-global", "platform-stage", "platform-over-global", "platform-over-stage"]
+            if n == 0:
+                layers = layers[4:]
+        recs = []
+        for vi, (v, val) in enumerate(vs):
+            lay = r.choice(layers)
+            if lay == "chain":
+                inner = v + "_b"
+                define_var(doc, inner, val, ("global",), i)
+                define_var(doc, v, "%(" + inner + ")s", ("component", i), i)
+                base["var_layers"][inner] = [("global",)]
+                base["var_layers"][v] = [("component", i)]
+                base["var_uses"][inner] = [i]
+                base["var_uses"][v] = [i]
+                recs.append({"name": v, "value": val, "layers": [["component", i]], "chain": inner})
+                continue
+            if lay == "global":
+                ls = [("global",)]
+            elif lay == "stage":
+                ls = [("stage", st)]
+            elif lay == "component":
+                ls = [("component", i)]
+            elif lay == "platform-global":
+                ls = [("platform-global", platform)]
+            elif lay == "platform-stage":
+                ls = [("platform-stage", platform, st)]
+            elif lay == "platform-over-global":
+                # the default platform holds a value that would dangle; the selected platform overrides it
+                ls = [("global",), ("platform-global", platform)]
+            else:
+                ls = [("stage", st), ("platform-stage", platform, st)]
+            for li, l in enumerate(ls):
+                wrong = ghost_value(form, stg, name, f) if vi == 0 else GHOST_STAGE
+                define_var(doc, v, val if li == len(ls) - 1 else (wrong if wrong is not None else "link"), l, i)
+            base["var_layers"][v] = list(ls)
+            base["var_uses"][v] = [i]
+            recs.append({"name": v, "value": val, "layers": [list(l) for l in ls]})
+        args = c["command"].get("arguments", "")
+        in_args = ref in args.split(" ")
+        where = "list+args" if in_args else "list"
+        args_text = None
+        if in_args:
+            roll = r.random()
+            if roll < 0.65:
+                args_text = text
+            elif roll < 0.85:
+                args_text = ref                  # list through the variable, command line spelled out
+                where = "list"
+            else:
+                args_text = text                 # list spelled out, only the command line uses the variable
+                where = "args"
+            c["command"]["arguments"] = replace_token(args, ref, args_text)
+        if where != "args":
+            c["references"][k] = text
+        base["spelled"].append({"i": i, "k": k, "comp": cid(c), "lit": ref, "text": c["references"][k],
+                                "args": args_text, "form": form, "where": where, "vars": recs,
+                                "stg": stg, "hidden": form != "method" and where != "args"})
+    if platform:
+        doc.setdefault("variables", {}).setdefault(platform, {}).setdefault("global", {})
+        base["platform"] = platform
 
 
 # --------------------------------------------------------------------------- helpers over documents
@@ -362,6 +566,60 @@ def misspellings(key: str, valid: List[str], rnd=None) -> List[str]:
     return cands[:2]
 
 
+# --------------------------------------------------------------------------- reading a document back (classifiers)
+
+_VAR = re.compile(r"%\(([^()]+)\)s")
+
+
+def visible_variables(doc, comp, platform=None) -> Dict[str, Any]:
+    """variables a component sees: default global < platform global < default stage < platform stage < component
+    (the generator never defines one variable in two layers of different kind, so only 'platform over default of
+    the same kind' and 'single layer' matter)"""
+    out: Dict[str, Any] = {}
+    allv = doc.get("variables") or {}
+    st = comp.get("stage", 0)
+    plats = ["default"] + ([platform] if platform and platform != "default" else [])
+    for p in plats:
+        sec = allv.get(p)
+        if isinstance(sec, dict) and isinstance(sec.get("global"), dict):
+            out.update(sec["global"])
+    for p in plats:
+        sec = allv.get(p)
+        if isinstance(sec, dict) and isinstance(sec.get("stages"), dict):
+            for key in (st, str(st)):
+                if isinstance(sec["stages"].get(key), dict):
+                    out.update(sec["stages"][key])
+    if isinstance(comp.get("variables"), dict):
+        out.update(comp["variables"])
+    return out
+
+
+def interpolate(text: str, variables: Dict[str, Any]) -> str:
+    for _ in range(6):
+        new = _VAR.sub(lambda m: str(variables[m.group(1)]) if m.group(1) in variables else m.group(0), text)
+        if new == text:
+            break
+        text = new
+    return text
+
+
+def resolved_edges(doc, platform=None) -> List[Tuple[str, str, bool]]:
+    """(producer id, consumer id, producer spelled with a variable) for every component reference of doc"""
+    out = []
+    for c in doc.get("components", []):
+        if not isinstance(c, dict) or not isinstance(c.get("references"), list) or "name" not in c:
+            continue
+        vs = visible_variables(doc, c, platform)
+        for ref in c["references"]:
+            if not isinstance(ref, str):
+                continue
+            producer_part = re.split(r"[/:]", ref, maxsplit=1)[0]
+            t = ref_target(interpolate(ref, vs), c.get("stage", 0))
+            if t:
+                out.append(("stage%d.%s" % t, cid(c), "%(" in producer_part))
+    return out
+
+
 # --------------------------------------------------------------------------- mutants
 
 def mutants(rnd, base: Dict[str, Any], all_values: bool = True) -> List[Dict[str, Any]]:
@@ -373,49 +631,110 @@ def mutants(rnd, base: Dict[str, Any], all_values: bool = True) -> List[Dict[str
         out.append({"kind": kind, "class": cls, "doc": d, "where": where, **kw})
 
     ids = {cid(c): i for i, c in enumerate(comps)}
-    es = edges_of(doc)
+    lit = base.get("lit") or doc                 # the spelled-out twin decides targets, edges and descendants
+    lcomps = lit["components"]
+    platform = base.get("platform")
+    spelled = {(s["i"], s["k"]): s for s in base.get("spelled", [])}
+    es = edges_of(lit)
+    hidden_targets = set()
+    for (i, k), s in spelled.items():
+        if s["hidden"]:
+            t = ref_target(s["lit"], lcomps[i].get("stage", 0))
+            hidden_targets.add("stage%d.%s" % t)
+
+    def new_layer(ci):
+        st = comps[ci].get("stage", 0)
+        ls = [("global",), ("stage", st), ("component", ci)]
+        if platform:
+            ls += [("platform-global", platform), ("platform-stage", platform, st)]
+        return rnd.choice(ls)
+
     # -- drop a referenced component
     for pid in sorted({a for a, b in es}):
         d = copy.deepcopy(doc)
         del d["components"][ids[pid]]
-        add("drop-referenced-component", "dangling-reference", d, [pid])
+        add("drop-referenced-component", "dangling-reference", d, [pid], via_variable=pid in hidden_targets)
     # -- rename a reference (both spellings / only in the references list)
     for i, c in enumerate(comps):
-        for k, ref in enumerate(c.get("references", [])):
+        for k, cur in enumerate(c.get("references", [])):
+            ref = lcomps[i]["references"][k]
             t = ref_target(ref, c.get("stage", 0))
             if not t:
                 continue
+            sp = spelled.get((i, k))
             m = _REF.match(ref)
             new = ("stage%s." % m.group(1) if m.group(1) is not None else "") + GHOST + (m.group(3) or "") + ":" + m.group(4)
             d = copy.deepcopy(doc)
             d["components"][i]["references"][k] = new
             a = d["components"][i]["command"].get("arguments", "")
-            d["components"][i]["command"]["arguments"] = a.replace(ref, new)
-            add("rename-reference", "dangling-reference", d, [cid(c), "references", k])
-            if d["components"][i]["command"]["arguments"] != a:
+            na = replace_token(replace_token(a, cur, new), ref, new)
+            if sp and sp.get("args"):
+                na = replace_token(na, sp["args"], new)
+            d["components"][i]["command"]["arguments"] = na
+            add("rename-reference", "dangling-reference", d, [cid(c), "references", k], spell=sp["form"] if sp else None)
+            if na != a:
                 d = copy.deepcopy(doc)
                 d["components"][i]["references"][k] = new
-                add("rename-reference-in-list-only", "dangling-reference", d, [cid(c), "references", k])
+                add("rename-reference-in-list-only", "dangling-reference", d, [cid(c), "references", k],
+                    spell=sp["form"] if sp else None)
+            if sp and sp["hidden"]:
+                # the reference is held in a variable: the fault is a variable whose value names a producer
+                # that exists nowhere (the effective layer is the last one)
+                rec = sp["vars"][0]
+                gv = ghost_value(sp["form"], sp["stg"], m.group(2), m.group(3))
+                if gv is not None:
+                    d = copy.deepcopy(doc)
+                    if rec.get("chain"):
+                        define_var(d, rec["chain"], gv, ("global",), i)
+                    else:
+                        define_var(d, rec["name"], gv, tuple(rec["layers"][-1]), i)
+                    add("rename-reference-in-variable", "dangling-reference", d, [cid(c), "references", k],
+                        spell=sp["form"], variable=rec["name"])
+            elif not sp:
+                # a spelled-out reference is replaced by one that reaches the missing producer through a variable
+                form, text, vs = spell(rnd, m.group(1), GHOST, m.group(3), m.group(4), "ghost_ref", allow_method=False)
+                d = copy.deepcopy(doc)
+                for v, val in vs:
+                    define_var(d, v, val, new_layer(i), i)
+                d["components"][i]["references"][k] = text
+                a = d["components"][i]["command"].get("arguments", "")
+                d["components"][i]["command"]["arguments"] = replace_token(a, ref, text)
+                add("rename-reference-through-variable", "dangling-reference", d, [cid(c), "references", k], spell=form)
     # -- add an edge that closes a cycle (ancestor consumes from descendant), and self references
-    desc = descendants(doc)
+    desc = descendants(lit)
+
+    def closing_edge(i, did, method, in_args, through_variable):
+        d = copy.deepcopy(doc)
+        cc = d["components"][i]
+        form = None
+        if through_variable:
+            stg, name = _REF.match(did + ":ref").groups()[:2]
+            form, ref, vs = spell(rnd, stg, name, None, method, "back_", allow_method=False)
+            for v, val in vs:
+                define_var(d, v, val, new_layer(i), i)
+        else:
+            ref = did + ":" + method
+        if ref in lcomps[i].get("references", []):
+            return None, None
+        cc.setdefault("references", []).append(ref)
+        if in_args:
+            cc["command"]["arguments"] = (cc["command"].get("arguments", "") + " " + ref).strip()
+        return d, form
+
     for i, c in enumerate(comps):
         for did in sorted(desc[cid(c)]):
             for method, in_args in (("ref", True), ("copy", False)):
-                d = copy.deepcopy(doc)
-                ref = did + ":" + method
-                cc = d["components"][i]
-                if ref in cc.get("references", []):
-                    continue
-                cc.setdefault("references", []).append(ref)
-                if in_args:
-                    cc["command"]["arguments"] = (cc["command"].get("arguments", "") + " " + ref).strip()
-                add("back-edge", "cycle", d, [cid(c), did], method=method)
-        d = copy.deepcopy(doc)
-        cc = d["components"][i]
-        ref = cid(c) + ":ref"
-        cc.setdefault("references", []).append(ref)
-        cc["command"]["arguments"] = (cc["command"].get("arguments", "") + " " + ref).strip()
+                d, _ = closing_edge(i, did, method, in_args, False)
+                if d is not None:
+                    add("back-edge", "cycle", d, [cid(c), did], method=method)
+            method, in_args = rnd.choice([("ref", True), ("copy", False), ("output", True), ("link", False)])
+            d, form = closing_edge(i, did, method, in_args, True)
+            add("back-edge-through-variable", "cycle", d, [cid(c), did], method=method, spell=form)
+        d, _ = closing_edge(i, cid(c), "ref", True, False)
         add("self-reference", "cycle", d, [cid(c)])
+        method, in_args = rnd.choice([("ref", True), ("ref", True), ("copy", False)])
+        d, form = closing_edge(i, cid(c), method, in_args, True)
+        add("self-reference-through-variable", "cycle", d, [cid(c)], spell=form)
     # -- duplicate an identifier
     for i, c in enumerate(comps):
         d = copy.deepcopy(doc)
@@ -481,28 +800,22 @@ def mutants(rnd, base: Dict[str, Any], all_values: bool = True) -> List[Dict[str
                 add("wrong-type", cls, d, [cid(c)] + list(path), doc_type=OPTIONS[path][0], value=val,
                     was_present=path in present)
     # -- remove a variable that a component uses and that exactly one layer defines
+    refvars = set()
+    for sp in base.get("spelled", []):
+        for rec in sp["vars"]:
+            refvars.add(rec["name"])
+            if rec.get("chain"):
+                refvars.add(rec["chain"])
     for v, layers in base["var_layers"].items():
         if len(layers) != 1 or not base["var_uses"].get(v):
             continue
         layer = layers[0]
         d = copy.deepcopy(doc)
-        try:
-            if layer[0] == "global":
-                del d["variables"]["default"]["global"][v]
-            elif layer[0] == "stage":
-                del d["variables"]["default"]["stages"][layer[1]][v]
-            else:
-                # components may have been shuffled: find by variables content
-                done = False
-                for cc in d["components"]:
-                    if v in cc.get("variables", {}):
-                        del cc["variables"][v]
-                        done = True
-                if not done:
-                    continue
-        except KeyError:
+        if not undefine_var(d, v, layer):
             continue
         kind = "remove-variable"
+        if v in refvars:
+            kind = "remove-reference-variable"
         if v in {a["arr"] for a in base.get("arrays", [])}:
             kind = "remove-array-variable"
         elif v in {a["idx"] for a in base.get("arrays", [])}:
@@ -543,4 +856,14 @@ def mutants(rnd, base: Dict[str, Any], all_values: bool = True) -> List[Dict[str
             n[k] = re.sub(r"(%\(" + re.escape(a["arr"]) + r"\)s)\[[^\]]*\]", r"\1[%d]" % (a["n"] + 5), text, count=1)
             if n[k] != text:
                 add("index-out-of-range", "info", d, [a["comp"]] + a["path"], info_only=True)
+    # -- (information only) a fault inside the override section of a platform that is NOT the one being loaded
+    other = "other-plat"
+    i = rnd.randrange(len(comps))
+    for kind, ov in (("override-unselected-platform-valid", {"resourceRequest": {"numberThreads": 2}}),
+                     ("override-unselected-platform-extra-key", {"resourceRequest": {"numberThreads": 2, "bogusOption": 1}}),
+                     ("override-unselected-platform-wrong-type", {"resourceRequest": {"numberThreads": "many"}})):
+        d = copy.deepcopy(doc)
+        d["components"][i].setdefault("override", {})[other] = ov
+        d["platforms"] = ["default", other] + ([platform] if platform else [])
+        add(kind, "info", d, [cid(comps[i]), "override", other], info_only=True)
     return out
